@@ -47,6 +47,10 @@ Proof. destruct s as [|a [|b [|c t]]]; simpl; auto. Qed.
 Lemma b64enc_nil_inv : forall s, b64enc s = [] -> s = [].
 Proof. destruct s as [|a [|b [|c t]]]; simpl; auto; discriminate. Qed.
 
+(* T1: the nonce test of handleServerFirstResponse as the source has it *)
+Lemma gen_nonce_check : forall nonce_nil has_prefix, Gen.scram_nonce_check nonce_nil has_prefix = nonce_nil || negb has_prefix.
+Proof. reflexivity. Qed.
+
 Lemma T1_codes : code_challenge = 334 /\ code_success = 235.
 Proof. split; reflexivity. Qed.
 
@@ -261,6 +265,7 @@ Section C15.
   Proof.
     intros st msg st1 resp E. unfold handle_server_first in E.
     destruct (sf_parse msg) as [[[combined salt] it]|] eqn:P; [|discriminate].
+    rewrite gen_nonce_check in E.
     destruct (is_nil (ss_nonce st) || negb (is_prefix (ss_nonce st) combined)) eqn:C; [discriminate|].
     apply orb_false_iff in C. destruct C as [C1 C2]. apply negb_false_iff in C2.
     destruct (precis (sid_pass id)) as [pw|] eqn:PP; [|discriminate].
